@@ -356,3 +356,164 @@ class RealFloat___mul__(Contract):
 
     def raises(self, other):
         return {'ValueError': (not q_dyadic(other)) if cls_name(other) == 'Fraction' else False}
+
+
+class RealFloat___radd__(Contract):
+    target = 'fpy2.number.number.reals:RealFloat.__radd__'
+    params = {'self': 'RealFloat', 'other': 'RealFloat | int | float | Fraction'}
+    returns = 'RealFloat | float'
+    properties = ['C05']
+    split = ['other']
+
+    def post(self, other, result):
+        r = result
+        fin = finite_operand(other)
+        out = {}
+        if cls_name(other) == 'float':
+            out.update({
+                'nan': implies(f64_isnan(other), cls_name(r) == 'float' and f64_isnan(r)),
+                'inf': implies(f64_isinf(other), cls_name(r) == 'float' and f64_isinf(r) and f64_sign(r) == f64_sign(other)),
+                'finite_type': implies(fin, cls_name(r) == 'RealFloat'),
+            })
+        if cls_name(r) == 'RealFloat':
+            a = trip(self)
+            b = trip(other)
+            out.update({
+                'wf': r._c >= 0,
+                'sum': implies(fin, t_is_sum(trip(r), a, b)),
+                'zero_sign': implies(fin and r._c == 0, r._s == (a[2] == 0 and b[2] == 0 and a[0] and b[0])),
+            })
+        return out
+
+    def raises(self, other):
+        return {'ValueError': (not q_dyadic(other)) if cls_name(other) == 'Fraction' else False}
+
+
+class RealFloat___sub__(Contract):
+    target = 'fpy2.number.number.reals:RealFloat.__sub__'
+    params = {'self': 'RealFloat', 'other': 'RealFloat | int | float | Fraction'}
+    returns = 'RealFloat | float'
+    properties = ['C05']
+    split = ['other']
+    no_use = ['RealFloat.__add__', 'RealFloat.__neg__']       # verified against the bodies (inlined), not the contracts
+    note = 'the sign of an exact zero difference is only specified for operands that carry a signed zero (RealFloat, float)'
+
+    def post(self, other, result):
+        r = result
+        fin = finite_operand(other)
+        out = {}
+        if cls_name(other) == 'float':
+            out.update({
+                'nan': implies(f64_isnan(other), cls_name(r) == 'float' and f64_isnan(r)),
+                # x - (+-inf) = -+inf
+                'inf': implies(f64_isinf(other), cls_name(r) == 'float' and f64_isinf(r) and f64_sign(r) == (not f64_sign(other))),
+                'finite_type': implies(fin, cls_name(r) == 'RealFloat'),
+            })
+        if cls_name(r) == 'RealFloat':
+            a = trip(self)
+            b = trip(other)
+            out.update({
+                'wf': r._c >= 0,
+                # the exact difference
+                'diff': implies(fin, t_is_diff(trip(r), a, trip_neg(other))),
+                'nonzero_zero_sign': implies(fin and r._c == 0 and (a[2] != 0 or b[2] != 0), r._s == False),
+            })
+            if has_zero_sign(other):
+                # IEEE 754 6.3: x - y = x + (-y); an exact zero is -0 only for (-0) - (+0)
+                out.update({'zero_sign': implies(fin and r._c == 0, r._s == (a[2] == 0 and b[2] == 0 and a[0] and not b[0]))})
+        return out
+
+    def raises(self, other):
+        return {'ValueError': (not q_dyadic(other)) if cls_name(other) == 'Fraction' else False}
+
+
+class RealFloat___rsub__(Contract):
+    target = 'fpy2.number.number.reals:RealFloat.__rsub__'
+    params = {'self': 'RealFloat', 'other': 'RealFloat | int | float | Fraction'}
+    returns = 'RealFloat | float'
+    properties = ['C05']
+    split = ['other']
+    no_use = ['RealFloat.__add__', 'RealFloat.__neg__']       # verified against the bodies (inlined), not the contracts
+
+    def post(self, other, result):
+        r = result
+        fin = finite_operand(other)
+        out = {}
+        if cls_name(other) == 'float':
+            out.update({
+                'nan': implies(f64_isnan(other), cls_name(r) == 'float' and f64_isnan(r)),
+                # (+-inf) - x = +-inf
+                'inf': implies(f64_isinf(other), cls_name(r) == 'float' and f64_isinf(r) and f64_sign(r) == f64_sign(other)),
+                'finite_type': implies(fin, cls_name(r) == 'RealFloat'),
+            })
+        if cls_name(r) == 'RealFloat':
+            a = trip(self)
+            b = trip(other)
+            out.update({
+                'wf': r._c >= 0,
+                # other - self, exactly
+                'diff': implies(fin, t_is_sum(trip(r), t_neg(a), b)),      # (-self) + other
+                # an exact zero is -0 only for (-0) - (+0)   (an int / Fraction zero counts as +0)
+                'zero_sign': implies(fin and r._c == 0, r._s == (a[2] == 0 and b[2] == 0 and b[0] and not a[0])),
+            })
+        return out
+
+    def raises(self, other):
+        return {'ValueError': (not q_dyadic(other)) if cls_name(other) == 'Fraction' else False}
+
+
+class RealFloat___rmul__(Contract):
+    target = 'fpy2.number.number.reals:RealFloat.__rmul__'
+    params = {'self': 'RealFloat', 'other': 'RealFloat | int | float | Fraction'}
+    returns = 'RealFloat | float'
+    properties = ['C05']
+    split = ['other']
+
+    def post(self, other, result):
+        r = result
+        fin = finite_operand(other)
+        out = {}
+        if cls_name(other) == 'float':
+            out.update({
+                'nan': implies(f64_isnan(other), cls_name(r) == 'float' and f64_isnan(r)),
+                'zero_times_inf': implies(f64_isinf(other) and self._c == 0, cls_name(r) == 'float' and f64_isnan(r)),
+                'inf': implies(f64_isinf(other) and self._c != 0,
+                               cls_name(r) == 'float' and f64_isinf(r) and f64_sign(r) == xor(self._s, f64_sign(other))),
+                'finite_type': implies(fin, cls_name(r) == 'RealFloat'),
+            })
+        if cls_name(r) == 'RealFloat':
+            a = trip(self)
+            b = trip(other)
+            out.update({
+                'wf': r._c >= 0,
+                'prod': implies(fin, t_is_prod(trip(r), b, a)),
+                'sign': implies(fin, r._s == xor(a[0], b[0])),
+            })
+        return out
+
+    def raises(self, other):
+        return {'ValueError': (not q_dyadic(other)) if cls_name(other) == 'Fraction' else False}
+
+
+class RealFloat___pow__(Contract):
+    target = 'fpy2.number.number.reals:RealFloat.__pow__'
+    params = {'self': 'RealFloat', 'exponent': 'int'}
+    returns = 'RealFloat'
+    properties = ['C05']
+
+    def post(self, exponent, result):
+        r = result
+        k = exponent
+        return {
+            'fresh': not same_obj(r, self),
+            'wf': r._c >= 0,
+            # x^0 = 1
+            'zeroth': implies(k == 0, t_is_int(trip(r), 1) and not r._s),
+            # ((-1)^s c 2^exp)^k = (-1)^(s k) c^k 2^(exp k)
+            'magnitude': implies(k > 0, t_mag_eq(trip(r), (False, self._exp * k, ipow(self._c, k)))),
+            'sign': implies(k > 0, r._s == (self._s and fmod(k, 2) == 1)),
+            'flags_clear': flags_clear(r),
+        }
+
+    def raises(self, exponent):
+        return {'ValueError': exponent < 0}
